@@ -350,7 +350,7 @@ def run(rep, tier_, rng):
               assumptions=ASSUMPTIONS, rule=RULE, not_decided=NOT_DECIDED,
               params={"sentence_timeout": 100 if tier_ == "quick" else 400, "single_timeout": 100 if tier_ == "quick" else 400,
                       "batch": 6, "ladder": [1]},
-              budget_quick=105)
+              budget_quick=95)
 
 
 def replay(rep, path):
